@@ -462,7 +462,7 @@ func lastLines(s string, n int) string {
 // ---------------------------------------------------------------------------
 // generation
 
-var allKinds = []string{"AssignVar", "Deref", "SetField", "SetElem", "SetThroughPtr", "SetMapEntry", "MapDelete", "MapLookup",
+var allKinds = []string{"AssignVar", "Deref", "SetLit", "SetField", "SetElem", "SetThroughPtr", "SetMapEntry", "MapDelete", "MapLookup",
 	"Append", "AppendLL", "AppendSlice", "DeleteIdx", "Copy", "Slice2", "Slice3", "Make", "AddrOf", "Swap",
 	"IdxAssign", "RebindAssign", "PassByValue", "ReturnComposite", "RangeArray", "RangeSlice", "Capture",
 	"CallFunc", "Box", "Unbox", "BindMV"}
@@ -476,6 +476,7 @@ type family struct {
 	maxSel    int
 	maxIdx    int
 	copyTypes []string
+	excl      []string
 }
 
 func tlaSet(xs []string) string {
@@ -497,8 +498,8 @@ func (f family) cfg(sim bool) []byte {
 	if sim {
 		spec, emitAt = "SpecSim", f.steps
 	}
-	return []byte(fmt.Sprintf("SPECIFICATION %s\nCONSTANTS MaxSteps = %d InitKind = %q MaxSel = %d MaxIdx = %d EmitAt = %d\n  Roots = %s\n  Kinds = %s\n  CopyTypes = %s\nVIEW View\nINVARIANTS %s\n",
-		spec, f.steps, f.init, f.maxSel, f.maxIdx, emitAt, tlaSet(f.roots), tlaSet(kinds), tlaSet(f.copyTypes), modelInvs))
+	return []byte(fmt.Sprintf("SPECIFICATION %s\nCONSTANTS MaxSteps = %d InitKind = %q MaxSel = %d MaxIdx = %d EmitAt = %d\n  Roots = %s\n  Kinds = %s\n  CopyTypes = %s\n  Excl = %s\nVIEW View\nINVARIANTS %s\n",
+		spec, f.steps, f.init, f.maxSel, f.maxIdx, emitAt, tlaSet(f.roots), tlaSet(kinds), tlaSet(f.copyTypes), tlaSet(f.excl), modelInvs))
 }
 
 func main() {
